@@ -23,7 +23,7 @@ EXPLANATION = "operand values symbolic over Z; operator set, readiness combinati
 TRUSTED = ["pyvc engine semantics (A1)", "z3 (A7)", "Python's &, |, ^ on unbounded ints are uninterpreted functions on both sides (the operator bodies are proved to call them)",
            "2**n / << / >> are expressed through an uninterpreted pow2(n) >= 1 on both sides", "spec/expr_spec.py is the statement (A6)"]
 ASSUMPTIONS = ["the literal scanner and the shunting loop are outside the subset: bounded stand-ins only (DESIGN 5.4)",
-               "A3: Deferred construct contract", "the per-token value cache of impure operators (finding D3) is owned by C16; here each token is resolved once"]
+               "A3: Deferred construct contract", "the per-token memo of impure operators: units resolve-again[*] evaluate one token in two states (D3/D48, fixed)"]
 
 INFIX_NAMES = {"mul": "*", "div": "/", "mod": "%", "add": "+", "sub": "-", "lshift": "<<", "rshift": ">>", "lsh": "_", "and_": "&", "xor": "^", "or_": "|", "or2": "!"}
 PREFIX_NAMES = {"pos": "+", "neg": "-", "inv": "~", "inv2": "^c"}
@@ -360,6 +360,8 @@ def unit_bounded_literals(eng, tier="quick"):
             if s[0] in "0179^":
                 texts.add(s)
     texts = sorted(texts)
+    # every spelling that is a number, also with a sign directly (or after a blank) in front of it: the sign belongs to the literal
+    texts += ["-" + t for t in texts if spec.literal_value(t) is not None] + ["- " + t for t in texts if spec.literal_value(t) is not None and len(t) <= 3]
     # digits of other scripts (every code point of category Nd outside ASCII) are not digits of any radix spelling
     import unicodedata
     nd = [chr(c) for c in range(128, 0x110000) if unicodedata.category(chr(c)) == "Nd"]
